@@ -57,12 +57,17 @@ inductive Ev
   /-- production point of one block.  `fail`: what is in scope where the production of this block can raise (the
       innermost producer); `susp`: what is in scope where the generator is suspended once the block is delivered -/
   | point (fail susp : Cleanup)
+  /-- a place between two blocks where the generator runs code of its own that can raise without producing a
+      block (queued_load between two files: resolving the next load item, the duplicate check, opening the next
+      file).  `next` passes it; only a failure can stop there.  `scope`: what is in scope at that place. -/
+  | gap (scope : Cleanup)
   deriving DecidableEq, Repr
 
 abbrev Trace := List Ev
 
 def Ev.push (hs : List Handle) : Ev → Ev
   | .point f s => .point (f.push hs) (s.push hs)
+  | .gap c => .gap (c.push hs)
   | e => e
 
 /-- the body `t` runs inside frames that close `hs` (in this order) when they are left -/
@@ -117,6 +122,7 @@ def reyield : Trace → List Bool → Trace
   | .point f s :: g, [] => .point f ⟨s.all, []⟩ :: reyield g []
   | .acq h :: g, ks => .acq h :: reyield g ks
   | .rel h :: g, ks => .rel h :: reyield g ks
+  | .gap c :: g, ks => .gap c :: reyield g ks
 
 /-- `for x in <generator g>: body_i` where the i-th item of g is consumed by `bodies[i]` (a missing body is
     `continue`).  At every point of the body g is suspended at its i-th yield and referenced by the loop only. -/
@@ -126,12 +132,14 @@ def forHeld : Trace → List Trace → Trace
   | .point _ _ :: g, [] => forHeld g []
   | .acq h :: g, bs => .acq h :: forHeld g bs
   | .rel h :: g, bs => .rel h :: forHeld g bs
+  | .gap c :: g, bs => .gap c :: forHeld g bs
 
 /-! ### the machine: consumer actions against a trace -/
 
 inductive Action
   | next          -- `next(g)`; for a writer: serialise the next table
   | throwInBlock  -- `next(g)` during which the production of the block raises (handler / tracker / filter error)
+  | throwInGap (skip : Nat)  -- `next(g)` that raises between two blocks, at the (skip+1)-th gap it comes to
   | close         -- `g.close()`
   | drop          -- the last reference to g is dropped
   | throw         -- `g.throw(exc)` at the suspension point
@@ -170,22 +178,36 @@ def St.closeAll (s : St) (hs : List Handle) : St := hs.foldl St.close1 s
 
 def St.finish (s : St) (o : Outcome) : St := { s with pc := .done, rest := [], out := o }
 
-/-- run to the next production point (deliver the block, or fail there) or to the end -/
-def adv (fail : Bool) : Trace → St → St
-  | [], s => s.finish .stopped
-  | .acq h :: t, s => adv fail t (s.open1 h)
-  | .rel h :: t, s => adv fail t (s.close1 h)
-  | .point f su :: t, s =>
-    if fail then { (s.closeAll f.now).finish .raised with tb := f.later }
-    else { s with pc := .suspendedAt (s.delivered + 1) su, rest := t, delivered := s.delivered + 1, out := .yielded }
+/-- how a `next` call goes on -/
+inductive Mode
+  | deliver               -- run to the next block and deliver it
+  | failBlock             -- run to the next block; its production raises
+  | failGap (skip : Nat)  -- run on; the (skip+1)-th gap reached before any block raises
+  deriving DecidableEq, Repr
+
+/-- run to the next production point (deliver the block, or fail there), to the failing gap, or to the end -/
+def adv : Mode → Trace → St → St
+  | _, [], s => s.finish .stopped
+  | m, .acq h :: t, s => adv m t (s.open1 h)
+  | m, .rel h :: t, s => adv m t (s.close1 h)
+  | .failGap 0, .gap c :: _, s => { (s.closeAll c.now).finish .raised with tb := c.later }
+  | .failGap (k + 1), .gap _ :: t, s => adv (.failGap k) t s
+  | .deliver, .gap _ :: t, s => adv .deliver t s
+  | .failBlock, .gap _ :: t, s => adv .failBlock t s
+  | .failBlock, .point f _ :: _, s => { (s.closeAll f.now).finish .raised with tb := f.later }
+  | _, .point _ su :: t, s =>
+    { s with pc := .suspendedAt (s.delivered + 1) su, rest := t, delivered := s.delivered + 1, out := .yielded }
 
 def step (s : St) : Action → St
   | .next => match s.pc with
     | .done => { s with out := .stopped }
-    | _ => adv false s.rest s
+    | _ => adv .deliver s.rest s
   | .throwInBlock => match s.pc with
     | .done => { s with out := .stopped }
-    | _ => adv true s.rest s
+    | _ => adv .failBlock s.rest s
+  | .throwInGap k => match s.pc with
+    | .done => { s with out := .stopped }
+    | _ => adv (.failGap k) s.rest s
   | .close => match s.pc with
     | .suspendedAt _ su => (s.closeAll su.all).finish .none
     | .notStarted => s.finish .none
@@ -216,6 +238,7 @@ def walk : List Handle → Trace → Option (List Handle)
   | o, .acq h :: t => if h.isLib && !(o.contains h) then walk (h :: o) t else none
   | o, .rel h :: t => if o.contains h then walk (o.erase h) t else none
   | o, .point f s :: t => if f.all.isPerm o && s.all.isPerm o then walk o t else none
+  | o, .gap c :: t => if c.all.isPerm o then walk o t else none
 
 def wf (t : Trace) : Bool := walk [] t == some []
 
@@ -238,6 +261,7 @@ inductive CtxSem
   | openIfPath       -- `open(x) if <x is a path> else nullcontext(x)` (either order)
   | closingWorkbook  -- `closing(openpyxl.load_workbook(path, read_only=True, …))`
   | closingRows      -- `closing(<local>)` in read_excel: the lazy row iterator handed out by read_sheets
+  | openPath         -- `open(<param>, 'wb')` (write_excel_openpyxl, only reached for a path-like target)
   deriving DecidableEq, Repr
 
 def interpCtx (e : String) : Option CtxSem :=
@@ -246,6 +270,7 @@ def interpCtx (e : String) : Option CtxSem :=
   else if e = "closing(openpyxl.load_workbook(<param>, read_only=True, data_only=True, keep_links=False))" then
     some .closingWorkbook
   else if e = "closing(<local>)" then some .closingRows
+  else if e = "open(<param>, 'wb')" then some .openPath
   else none
 
 inductive Frame
@@ -298,6 +323,7 @@ def ctxOf (c : CtxSem) (src : Src) : Ctx :=
   | .openIfPath, .stream _ => .null
   | .closingWorkbook, _ => .acquire (.lib src 0)    -- the zip archive object, also over a caller's stream
   | .closingRows, _ => .null                        -- accounted for by `lazyBlocks … managed`
+  | .openPath, _ => .acquire (.lib src 0)
 
 /-- the body of a function inside the frames the table gives for it -/
 def applyFrame (fr : Frame) (src : Src) (t : Trace) : Trace :=
@@ -366,11 +392,14 @@ def fileRead (tbl : Table) : FileSpec → Trace
 def includeRead (tbl : Table) (fs : FileSpec) (keep : List Bool) : Trace :=
   reyield (fileRead tbl fs) keep
 
-/-- _orchestrators.py queued_load: `while items: … yield from load_proxy.read(orch)`, in the order in which
-    the work list is popped -/
+/-- _orchestrators.py queued_load: `while items: <resolve the next item, refuse a duplicate>;
+    yield from load_proxy.read(orch)`, in the order in which the work list is popped.  Before every item there
+    is a gap: resolving (LoadError), the duplicate check (tracker error), an unsupported extension (ValueError)
+    and a missing file (FileNotFoundError from open / load_workbook) all raise there, with nothing of this
+    generator in scope.  An item that fails this way is a `.folder` (it produces nothing). -/
 def queuedLoad (tbl : Table) : List (FileSpec × List Bool) → Trace
   | [] => []
-  | (fs, keep) :: rest => deleg (includeRead tbl fs keep) ++ queuedLoad tbl rest
+  | (fs, keep) :: rest => .gap noCleanup :: (deleg (includeRead tbl fs keep) ++ queuedLoad tbl rest)
 
 /-- _orchestrators.py load_files: `yield from queued_load(…)` -/
 def loadFiles (tbl : Table) (files : List (FileSpec × List Bool)) : Trace := deleg (queuedLoad tbl files)
@@ -383,12 +412,48 @@ def loadFiles (tbl : Table) (files : List (FileSpec × List Bool)) : Trace := de
 def writeCsv (tbl : Table) (dst : Src) (n : Nat) : Trace :=
   applyFrame (frameOf tbl "write_csv") dst (plainBlocks n)
 
-/-- _excel_openpyxl.py write_excel_openpyxl: every table is appended to an in-memory workbook, then
-    `wb.save(path)`; openpyxl opens the zip archive on the target and closes it inside `save` -/
+/-- how write_excel_openpyxl gets the workbook onto the target, read from its row of the frame table -/
+inductive SaveShape
+  | buffered   -- `wb.save(buffer)`, then `with open(path, 'wb') as f: f.write(…)` for a path, `wb.save(stream)` else
+  | direct     -- `wb.save(path)`: openpyxl opens the archive on the target and closes it at the end of `save`
+  | other
+  deriving DecidableEq, Repr
+
+def saveShape (tbl : Table) : SaveShape :=
+  match findRow tbl "write_excel_openpyxl" with
+  | some r =>
+    if !r.bareOpens.isEmpty || !r.closeCalls.isEmpty then .other
+    else if r.points == [("call _append_table_to_openpyxl_worksheet", []), ("call <local>.save", []),
+        ("call <local>.write", ["open(<param>, 'wb')"]), ("call <local>.save", [])] then .buffered
+    else if r.points == [("call _append_table_to_openpyxl_worksheet", []), ("call <local>.save", [])] then .direct
+    else .other
+  | none => .other
+
+/-- _excel_openpyxl.py write_excel_openpyxl: every table is appended to an in-memory workbook (one point per
+    table), then the workbook is serialised.  Serialising can fail without any table being "produced" (a cell
+    openpyxl converts only at save time): a `gap`.
+    * buffered (current source): `wb.save(buffer)` with nothing open; for a path `with open(path, 'wb') as f:
+      f.write(bytes)`; for a caller's stream `wb.save(stream)` (openpyxl's ZipFile wrapper over the caller's
+      stream is internal to `save` and is not a file: not tracked).
+    * direct (the source before /repo 5dca582): `wb.save(path)` — openpyxl's `ExcelWriter.save` is
+      `write_data(); archive.close()` without `finally`: when serialising fails the archive stays open, referenced
+      from the frames of the traceback only (`later`). -/
 def writeExcel (tbl : Table) (dst : Src) (n : Nat) : Trace :=
-  match frameOf tbl "write_excel_openpyxl" with
-  | .withs [] => plainBlocks n ++ [.acq (.lib dst 0), .rel (.lib dst 0)]
-  | fr => applyFrame fr dst (plainBlocks n)
+  match saveShape tbl, dst with
+  | .buffered, .path _ => plainBlocks n ++ (.gap noCleanup :: withC (.acquire (.lib dst 0)) [.gap noCleanup])
+  | .buffered, .stream _ => plainBlocks n ++ [.gap noCleanup]
+  | .direct, .path _ => plainBlocks n ++ [.acq (.lib dst 0), .gap ⟨[], [.lib dst 0]⟩, .rel (.lib dst 0)]
+  | .direct, .stream _ => plainBlocks n ++ [.gap noCleanup]
+  | .other, _ => bare (.lib dst 0) (plainBlocks n)
+
+/-- _excel_xlsxwriter.py write_excel_xlsxwriter: `wb = xlsxwriter.Workbook(path)`; every table is written into
+    the in-memory workbook; `wb.close()` — no `with`, no `try/finally`.  xlsxwriter is an external library that
+    is not installed here: *when* it opens the target is a parameter (`opensAtCtor`): in the constructor (then the
+    handle is held across the tables and a failing table leaves it to the deallocator), or only inside `close()`
+    (then it is opened and closed inside that call, as openpyxl's `save`). -/
+def writeExcelXlsxwriter (opensAtCtor : Bool) (dst : Src) (n : Nat) : Trace :=
+  if opensAtCtor then .acq (.lib dst 0) :: (plainBlocks n ++ [.rel (.lib dst 0)])
+  else plainBlocks n ++ [.acq (.lib dst 0), .rel (.lib dst 0)]
 
 /-! ### what the harness can see -/
 
